@@ -2,7 +2,12 @@ package wire
 
 import (
 	"bytes"
+	"errors"
 	"fmt"
+	"io"
+	"net"
+	"os"
+	"syscall"
 	"testing"
 
 	gomavlib "github.com/bluenviron/gomavlib/v3"
@@ -18,7 +23,7 @@ import (
 
 func TestC09Histories(t *testing.T) {
 	rec := evid.New(t, "C09", "state-machine histories of 20..700 operations on a message writer (streamwriter.Writer, frame.Writer.WriteMessage, or the same through NewWriter / frame.ReadWriter / NewReadWriter): decoded messages, raw messages with an in-dialect id, and refused writes (nil, id outside the dialect, id>255 on v1) interleaved; the output is parsed by the reference: i-th emitted frame has seq i mod 256, configured ids, version marker, flags, reference checksum, v1 payload = base size; refused writes emit nothing and consume no sequence number; non-trivial = more than 256 emitted frames with >=2 message kinds, or a refused write between two accepted ones; distinct by hash of the emitted stream")
-	rec.Require("wraps-256", "refused-between-accepted", "v1", "v2", "signed", "streamwriter", "framewriter", "raw-in-dialect", "id>=65536", "other-writer-form", "raw-v2-payload-ending-in-zero", "forwarded-frames-between-originated-ones")
+	rec.Require("wraps-256", "refused-between-accepted", "v1", "v2", "signed", "streamwriter", "framewriter", "raw-in-dialect", "id>=65536", "other-writer-form", "raw-v2-payload-ending-in-zero", "forwarded-frames-between-originated-ones", "transport-refused-a-write")
 	dpool := pool(t)
 	evid.Check(t, rec, evid.N(2500, 8000), func(t *rapid.T) {
 		readBufSize = 512
@@ -104,6 +109,7 @@ func TestC09Histories(t *testing.T) {
 		emitted := 0
 		kinds := map[uint32]bool{}
 		refusedBetween, pendingRefused, rawUsed, rawZeroEnd := false, false, false, false
+		transportErrors := 0
 		var expect []struct {
 			lay *ref.Layout
 			pay []byte
@@ -111,9 +117,36 @@ func TestC09Histories(t *testing.T) {
 		}
 		forwarded := 0
 		for i := 0; i < nops; i++ {
-			op := rapid.SampledFrom([]string{"msg", "msg", "msg", "msg", "raw", "nil", "outside", "big-id-v1", "forward"}).Draw(t, "op")
+			op := rapid.SampledFrom([]string{"msg", "msg", "msg", "msg", "raw", "nil", "outside", "big-id-v1", "forward", "transport-error"}).Draw(t, "op")
 			ncalls := len(w.calls)
 			switch op {
+			case "transport-error":
+				// the transport takes nothing of this write and says why: the write is not an accepted one, whatever
+				// the reason - no frame went out, so no sequence number is gone
+				var id uint32
+				for {
+					id = di.ids[rapid.IntRange(0, len(di.ids)-1).Draw(t, "te_msgidx")]
+					if v2 || id <= 255 {
+						break
+					}
+				}
+				terr := rapid.SampledFrom([]error{errors.New("injected transport error"), syscall.ENOBUFS, syscall.EAGAIN, syscall.ECONNREFUSED, syscall.EMSGSIZE,
+					&net.OpError{Op: "write", Net: "udp", Err: os.NewSyscallError("sendto", syscall.ENOBUFS)}, &net.OpError{Op: "write", Net: "udp", Err: os.NewSyscallError("sendto", syscall.EPERM)}, io.ErrShortWrite}).Draw(t, "transport_error")
+				w.failNext = terr
+				err := write(gen.Value(t, di.layouts[id]).(message.Message))
+				if w.failNext != nil {
+					t.Fatalf("BROKEN: the write did not reach the transport")
+				}
+				if err == nil {
+					t.Fatalf("op %d: the transport sent nothing and returned %q, yet the write reports success: a write that put no frame on the link counts as accepted", i, terr)
+				}
+				if len(w.calls) != ncalls {
+					t.Fatalf("BROKEN: refused transport call recorded")
+				}
+				transportErrors++
+				if emitted > 0 {
+					pendingRefused = true
+				}
 			case "forward":
 				ff := gen.RawFrame(t, gen.FrameOpts{})
 				if err := forward(gen.ToLib(ff)); err != nil {
@@ -305,6 +338,9 @@ func TestC09Histories(t *testing.T) {
 		}
 		if rawUsed {
 			cls = append(cls, "raw-in-dialect")
+		}
+		if transportErrors > 0 {
+			cls = append(cls, "transport-refused-a-write")
 		}
 		for id := range kinds {
 			if id >= 65536 {
